@@ -532,43 +532,6 @@ func Query(dts []*Datatype, assumptions []*Term, negGoal *Term, getValues []*Ter
 	}
 	var b strings.Builder
 	b.WriteString("(set-option :produce-models true)\n(set-logic ALL)\n")
-	usedDT := map[string]bool{}
-	var need func(sort string)
-	need = func(sort string) {
-		for _, dt := range dts {
-			if strings.Contains(sort, dt.Name) && !usedDT[dt.Name] {
-				usedDT[dt.Name] = true
-				for _, f := range dt.Fields {
-					need(f.Sort)
-				}
-			}
-		}
-	}
-	all := assumptions
-	_ = all
-	for _, s := range d.consts {
-		need(s)
-	}
-	for _, sig := range d.funs {
-		for _, s := range sig {
-			need(s)
-		}
-	}
-	// datatype constructors/selectors appear as ops, so scan text as well
-	text := negGoal.String()
-	for _, a := range assumptions {
-		text += a.String()
-	}
-	for _, dt := range dts {
-		if strings.Contains(text, "mk_"+dt.Name) || strings.Contains(text, dt.Name+"_") {
-			need(dt.Name)
-		}
-	}
-	for _, dt := range dts { // declaration order = definition order
-		if usedDT[dt.Name] {
-			b.WriteString(dt.Decl() + "\n")
-		}
-	}
 	names := make([]string, 0, len(d.consts))
 	for n := range d.consts {
 		names = append(names, n)
@@ -600,6 +563,51 @@ func Query(dts []*Datatype, assumptions []*Term, negGoal *Term, getValues []*Ter
 			b.WriteString(v.String())
 		}
 		b.WriteString("))\n")
+	}
+	return b.String()
+}
+
+// BatchQuery renders one solver session: shared assumptions, then one push/assert/check/pop
+// block per goal (extra[i] are goal-specific assumptions, e.g. quantifier instances).
+func BatchQuery(common []*Term, extra [][]*Term, negGoals []*Term, timeoutMs int) string {
+	d := &declSet{consts: map[string]string{}, funs: map[string][]string{}, bound: map[string]int{}}
+	for _, a := range common {
+		d.walk(a)
+	}
+	for i, g := range negGoals {
+		d.walk(g)
+		for _, x := range extra[i] {
+			d.walk(x)
+		}
+	}
+	var b strings.Builder
+	fmt.Fprintf(&b, "(set-option :timeout %d)\n(set-logic ALL)\n", timeoutMs)
+	names := make([]string, 0, len(d.consts))
+	for n := range d.consts {
+		names = append(names, n)
+	}
+	sort.Strings(names)
+	for _, n := range names {
+		fmt.Fprintf(&b, "(declare-const %s %s)\n", quoteSym(n), d.consts[n])
+	}
+	names = names[:0]
+	for n := range d.funs {
+		names = append(names, n)
+	}
+	sort.Strings(names)
+	for _, n := range names {
+		sig := d.funs[n]
+		fmt.Fprintf(&b, "(declare-fun %s (%s) %s)\n", quoteSym(n), strings.Join(sig[:len(sig)-1], " "), sig[len(sig)-1])
+	}
+	for _, a := range common {
+		fmt.Fprintf(&b, "(assert %s)\n", a.String())
+	}
+	for i, g := range negGoals {
+		b.WriteString("(push 1)\n")
+		for _, x := range extra[i] {
+			fmt.Fprintf(&b, "(assert %s)\n", x.String())
+		}
+		fmt.Fprintf(&b, "(assert %s)\n(check-sat)\n(pop 1)\n", g.String())
 	}
 	return b.String()
 }
